@@ -5,7 +5,7 @@
 From Coq Require Import ZArith List.
 From NTT Require Import Functors Algebra Inverse NTTInst NTTClosed NTTTables Shards Permut Tables FlatTable Fused GenEq.
 From NTT.gen Require Gen GenLoop.
-From NTT Require Structural GenLoopEq ScalarOps GenPrepEq InitSpec GenInitEq PrepSpec PermSem PermSrc InvNttSrc Frame InvNttAll SourceModel.
+From NTT Require Structural GenLoopEq ScalarOps GenPrepEq InitSpec GenInitEq PrepSpec PermSem PermSrc InvNttSrc Frame InvNttAll SourceModel PowPhiSrc.
 From NTT.gen Require GenPerm.
 From NTT.gen Require Import Params.
 Local Open Scope Z_scope.
@@ -268,3 +268,28 @@ Theorem C02_source_inverse_is_model : forall p g ik K k0 padW padW' fuel invK, (
      ok 64 y (GenLoop.gen_inv_ntt_serial_u64 fuel (Z.of_nat n) y 0 W 0 (W' 64) 0 invK p y0) /\ ok 64 y (GenLoop.gen_inv_ntt_sse_u64 fuel (Z.of_nat n) y 0 W 0 (W' 64) 0 invK p y0) /\ ok 64 y (GenLoop.gen_inv_ntt_avx2_u64 fuel (Z.of_nat n) y 0 W 0 (W' 64) 0 invK p y0)).
 Proof. exact (fun p g ik K k0 padW padW' fuel invK Hk Hp HpW Hf => SourceModel.source_inverse_is_model p g K k0 padW padW' Hk Hp HpW ik fuel invK Hf). Qed.
 Print Assumptions C02_source_inverse_is_model.
+
+(* core::ntt_pow_phi OF THE SOURCE, whole function, every build and limb type (gen_ntt_pow_phi_<build>_uN, translated on every run: the loop
+   over the moduli calling the translated core::ntt on row cm of _data with omegas[cm] and the pointer-array member shoupomegas[cm], read
+   as omegas[cm] + degree -- the form in which core::initialize() of the source sets it; the expression-template statement
+   op = shoup(op * phis, shoupphis) as the oracle ExprSem.expr_shoup_mul: element-wise translated mulmod_shoup, C07's meaning).
+   On arrays described POINTWISE exactly as C02_source_initialize describes what core::initialize() leaves (tables_of_init below), for any
+   number of moduli and any degree 2^k, k = 4..30, canonical input rows: row c of the polynomial becomes NTTInst.ntt_fwd_s of row c -- the
+   extracted forward transform of C01/C02.  Each iteration is C05_source_loops_anywhere at offsets cm*degree, cm*2*degree, cm*2*degree+degree. *)
+Theorem C02_source_ntt_pow_phi : forall K k0 nm P roots data ph sph om, (4 <= S k0 <= 30)%nat -> Z.of_nat nm < 2 ^ 28 ->
+  length data = (nm * 2 ^ S k0)%nat -> (nm * 2 ^ S k0 <= length ph)%nat -> (nm * 2 ^ S k0 <= length sph)%nat -> (nm * (2 * 2 ^ S k0) <= length om)%nat ->
+  let n := (2 ^ S k0)%nat in let row := fun c => List.firstn n (List.skipn (c * n) data) in
+  (forall c, (c < nm)%nat -> List.Forall (fun v => 0 <= v < List.nth c P 0) (row c)) ->
+  let tables := fun bits => forall c, (c < nm)%nat -> let p := List.nth c P 0 in let g := List.nth c roots 0 in let shp := List.map (fun v => (v * 2 ^ bits) / p) in
+     (forall i, (i < n)%nat -> List.nth (c * n + i) ph 0 = List.nth i (phis p g K k0) 0 /\ List.nth (c * n + i) sph 0 = List.nth i (shp (phis p g K k0)) 0) /\
+     (forall i, (i < n - 1)%nat -> List.nth (c * (n * 2) + i) om 0 = List.nth i (FlatTable.flat p (S k0) (omega p g K k0)) 0 /\
+                                   List.nth (c * (n * 2) + n + i) om 0 = List.nth i (shp (FlatTable.flat p (S k0) (omega p g K k0))) 0) in
+  let out := fun bits => Some (List.concat (List.map (fun c => ntt_fwd_s bits (List.nth c P 0) (List.nth c roots 0) K k0 (row c)) (List.seq 0 nm))) in
+  ((forall c, (c < nm)%nat -> ScalarOps.Hrow 16 (List.nth c P 0)) -> tables 16 ->
+     GenLoop.gen_ntt_pow_phi_serial_u16 (Z.of_nat n) (Z.of_nat nm) data ph sph om P = out 16 /\ GenLoop.gen_ntt_pow_phi_sse_u16 (Z.of_nat n) (Z.of_nat nm) data ph sph om P = out 16 /\ GenLoop.gen_ntt_pow_phi_avx2_u16 (Z.of_nat n) (Z.of_nat nm) data ph sph om P = out 16) /\
+  ((forall c, (c < nm)%nat -> ScalarOps.Hrow 32 (List.nth c P 0)) -> tables 32 ->
+     GenLoop.gen_ntt_pow_phi_serial_u32 (Z.of_nat n) (Z.of_nat nm) data ph sph om P = out 32 /\ GenLoop.gen_ntt_pow_phi_sse_u32 (Z.of_nat n) (Z.of_nat nm) data ph sph om P = out 32 /\ GenLoop.gen_ntt_pow_phi_avx2_u32 (Z.of_nat n) (Z.of_nat nm) data ph sph om P = out 32) /\
+  ((forall c, (c < nm)%nat -> ScalarOps.Hrow 64 (List.nth c P 0)) -> tables 64 ->
+     GenLoop.gen_ntt_pow_phi_serial_u64 (Z.of_nat n) (Z.of_nat nm) data ph sph om P = out 64 /\ GenLoop.gen_ntt_pow_phi_sse_u64 (Z.of_nat n) (Z.of_nat nm) data ph sph om P = out 64 /\ GenLoop.gen_ntt_pow_phi_avx2_u64 (Z.of_nat n) (Z.of_nat nm) data ph sph om P = out 64).
+Proof. exact PowPhiSrc.source_ntt_pow_phi_pointwise. Qed.
+Print Assumptions C02_source_ntt_pow_phi.
